@@ -337,7 +337,22 @@ def annotation_check(model, feeds_list: list[dict[str, np.ndarray]]) -> dict[str
             decl[v.name] = v
     for v in extra:
         m.graph.output.append(v)
-    rec: dict[str, Any] = {"values": 0, "runs": 0, "problems": [], "unobserved": None}
+    rec: dict[str, Any] = {"values": 0, "runs": 0, "problems": [], "unobserved": None, "events": []}
+
+    def _dims(tt):
+        out = []
+        if not tt.HasField("shape"):
+            return out
+        for d in tt.shape.dim:
+            if d.HasField("dim_value"):
+                out.append({"k": "int", "v": int(d.dim_value)})
+            elif d.dim_param and re.fullmatch(r"[A-Za-z_][A-Za-z0-9_]*", d.dim_param) and "DYNAMIC_DIM_SENTINEL" not in d.dim_param:
+                # (JAX2ONNX_DYNAMIC_DIM_SENTINEL is the project's spelling of "unknown", not a symbol)
+                out.append({"k": "sym", "s": d.dim_param})
+            else:
+                out.append({"k": "unk"})
+        return out
+
     try:
         sess = U.ort_session(m)
     except Exception as ex:  # noqa: BLE001
@@ -351,6 +366,11 @@ def annotation_check(model, feeds_list: list[dict[str, np.ndarray]]) -> dict[str
             rec["unobserved"] = f"instrumented model does not run: {str(ex)[:160]}"
             continue
         rec["runs"] += 1
+        rec["events"].append({"ev": "Run"})
+        for i in m.graph.input:
+            if i.name in feeds and i.type.HasField("tensor_type"):
+                rec["events"].append({"ev": "Value", "name": i.name, "ddt": str(np.dtype(oh.tensor_dtype_to_np_dtype(i.type.tensor_type.elem_type))), "odt": str(feeds[i.name].dtype),
+                                      "ddims": _dims(i.type.tensor_type), "odims": [int(x) for x in feeds[i.name].shape]})
         sym: dict[str, int] = {}
         for i in m.graph.input:
             if i.name in feeds and i.type.HasField("tensor_type"):
@@ -364,6 +384,8 @@ def annotation_check(model, feeds_list: list[dict[str, np.ndarray]]) -> dict[str
             rec["values"] += 1
             tt = v.type.tensor_type
             want = oh.tensor_dtype_to_np_dtype(tt.elem_type)
+            if len(rec["events"]) < 4000:
+                rec["events"].append({"ev": "Value", "name": name, "ddt": str(np.dtype(want)), "odt": str(arr.dtype), "ddims": _dims(tt) if tt.HasField("shape") else [], "odims": [int(x) for x in arr.shape]})
             if np.dtype(want) != arr.dtype:
                 rec["problems"].append(f"value '{name}': declared {np.dtype(want)} but runtime produces {arr.dtype}")
                 continue
@@ -378,3 +400,65 @@ def annotation_check(model, feeds_list: list[dict[str, np.ndarray]]) -> dict[str
                     elif d.dim_param and d.dim_param in sym and re.fullmatch(r"[A-Za-z_][A-Za-z0-9_]*", d.dim_param) and sym[d.dim_param] != size:
                         rec["problems"].append(f"value '{name}' axis {a}: declared symbol {d.dim_param}={sym[d.dim_param]} but runtime {size}")
     return rec
+
+
+class PostprocessRecorder:
+    """Snapshot value annotations right before / after user_interface.postprocess_ir_model."""
+
+    def __init__(self) -> None:
+        self.events: list[dict[str, Any]] = []
+
+    @staticmethod
+    def _snap(model) -> dict[str, Any]:
+        import onnx_ir as ir
+
+        out = {}
+        g = model.graph
+        io = {id(v) for v in list(g.inputs) + list(g.outputs)}
+        vals = list(g.inputs) + list(g.outputs)
+        for n in g:
+            vals += [o for o in n.outputs if o is not None]
+        for v in vals:
+            if v.name is None or v.name in out:
+                continue
+            dims = []
+            if v.shape is not None:
+                for d in v.shape.dims:
+                    if isinstance(d, (int, np.integer)):
+                        dims.append({"k": "int", "v": int(d)})
+                    elif isinstance(d, ir.SymbolicDim) and d.value is not None:
+                        dims.append({"k": "sym", "s": str(d.value)})
+                    else:
+                        dims.append({"k": "unk"})
+            out[v.name] = {"io": id(v) in io, "dt": str(v.dtype) if v.dtype is not None else "none", "dims": dims, "has_shape": v.shape is not None}
+        return out
+
+    def __enter__(self):
+        import jax2onnx.user_interface as ui
+
+        self._ui = ui
+        self._orig = ui.postprocess_ir_model
+        rec = self
+
+        def wrapped(model, *a, **k):
+            before = rec._snap(model)
+            r = rec._orig(model, *a, **k)
+            after = rec._snap(model)
+            for name, b in before.items():
+                a2 = after.get(name)
+                if a2 is None:
+                    continue
+                if b["has_shape"] and not a2["has_shape"]:
+                    adims = [{"k": "unk"} for _ in b["dims"]]
+                else:
+                    adims = a2["dims"]
+                if len(rec.events) < 3000 and (b["dims"] != adims or b["dt"] != a2["dt"] or b["io"]):
+                    rec.events.append({"ev": "Post", "name": name, "io": b["io"], "bdt": b["dt"], "adt": a2["dt"], "bdims": b["dims"], "adims": adims})
+            return r
+
+        ui.postprocess_ir_model = wrapped
+        return self
+
+    def __exit__(self, *a):
+        self._ui.postprocess_ir_model = self._orig
+        return False
